@@ -33,7 +33,8 @@ def apply_history(shape, hist, sdef, via='dict', work=None, nevaluators=1):
         a = W.addr(h['x'])
         try:
             if h['op'] == 'set':
-                ev.set_cell_value(a, xl.from_abs(h['v'], 'native'))
+                # through the evaluator or - in histories whose first step is no evaluation - through the model's own setter
+                (model if hist[0]['op'] != 'evaluate' and i % 2 else ev).set_cell_value(a, xl.from_abs(h['v'], 'native'))
                 obs = None
             elif h['op'] == 'setname':
                 ev.set_cell_value(h['name'], xl.from_abs(h['v'], 'native'))
@@ -153,8 +154,9 @@ def run(run):
         run.laws[f'variant {bad} rejected'] = rb.violated
     blocks = []
     run.tlc('MC_C04', 'C04_check_neg.cfg', timeout=900)
-    for cfg, maxlen in ((('C04_cases.cfg', 3), ('C04_cases_alt.cfg', 2), ('C04_cases_neg.cfg', 3)) if quick else
-                        (('C04_cases_thorough.cfg', 4), ('C04_cases_se_thorough.cfg', 5), ('C04_cases_alt.cfg', 2), ('C04_cases_neg_thorough.cfg', 4))):
+    for cfg, maxlen in ((('C04_cases.cfg', 3), ('C04_cases_alt.cfg', 2), ('C04_cases_neg.cfg', 3), ('C04_cases_deep.cfg', 3)) if quick else
+                        (('C04_cases_thorough.cfg', 4), ('C04_cases_se_thorough.cfg', 5), ('C04_cases_alt.cfg', 2), ('C04_cases_neg_thorough.cfg', 4),
+                         ('C04_cases_deep.cfg', 3))):
         r = run.tlc('MC_C04', cfg, dump=True, timeout=2400)
         blocks += [b for b in pool.dump_blocks(r.dump) if b.count('op |->') >= maxlen + 1]   # maximal histories (obs + hist entries)
     maxlen = 4 if quick else 5
